@@ -126,7 +126,7 @@ def make_case(batch, seed):
         make_case._big = big
         a = big[rng.randrange(len(big))]
         return {'prog': {'world': 'key', 'sigs': [a, a, a], 'cache': rng.choice(['dict', 'default']),
-                         'lookalike': rng.randrange(12), 'shared_decorator': rng.random() < 0.3}, 'sched': {}}
+                         'lookalike': rng.randrange(24), 'shared_decorator': rng.random() < 0.3}, 'sched': {}}
     if batch['profile'] == 'sample':
         rng = random.Random(seed)
         big = kw.signatures(3, 3, nvalues=3, names=3) if not hasattr(make_case, '_big') else make_case._big
